@@ -3,8 +3,8 @@ CONSTANTS
   MaxFlags = 1
   ConvertCompressions = {"none"}
   Emit = FALSE
-INVARIANTS TypeOK EmitState
-PROPERTIES Monotone
+INVARIANTS TypeOK CompleteIsLossless DeviationsNeedExcludedImports EmitState
+PROPERTIES Monotone OptionsOnlyLostByDeviation
 ACTION_CONSTRAINT EmitEdge
 VIEW View
 CHECK_DEADLOCK FALSE
